@@ -924,9 +924,11 @@ func (c *Compiler) linkRecursiveCode(ctx *compileContext) {
 		lastCode.ElemIdx = lastCode.Idx + uintptrSize
 		lastCode.Length = lastCode.Idx + 2*uintptrSize
 
-		// extend length to alloc slot for elemIdx + length
-		curTotalLength := uintptr(recursive.TotalLength()) + 3
-		nextTotalLength := uintptr(totalLength) + 3
+		// extend length to alloc slots for idx + elemIdx + length of the
+		// recursive end code: they follow the last slot, whose index is
+		// totalLength, so the frame holds totalLength + 4 slots
+		curTotalLength := uintptr(recursive.TotalLength()) + 4
+		nextTotalLength := uintptr(totalLength) + 4
 
 		compiled := recursive.Jmp
 		compiled.Code = code
